@@ -83,3 +83,22 @@ Definition wire (e : event) : N * bytes := (ev_kind e, ev_target e).
 (* a scripted server: the n-th request of the session is answered with the n-th entry (ok when exhausted) *)
 Definition scripted (answers : list (list rpc_error)) : oracle :=
   fun hist _ _ => nth (length hist) answers [].
+
+(* ---- LockContext objects are VALUES.  `ctx = m.locked(t)` (Manager.locked) builds an object that holds
+   (session, device handler, target), all three fixed by __init__; neither __enter__ nor __exit__ writes a field: every
+   __enter__ builds a NEW Lock RPC, every __exit__ a NEW Unlock RPC (an RPC object makes one request, a LockContext any
+   number).  Entering a kept object again - a retry loop `ctx = m.locked(t); for ...: try: with ctx: body ...` - is
+   therefore entering a fresh context on the same datastore: nothing of an earlier entry (refused or granted) survives
+   in the object.  [Reuse t entries] = one object, entered once per entry, one after the other; an entry is
+   (caught, body): caught = the with-statement stands in `try: ... except Exception: pass` (what a retry loop does). *)
+Record lockctx : Type := mkCtx { lc_target : bytes }.
+Definition locked (t : bytes) : lockctx := mkCtx t.                                  (* Manager.locked(t) *)
+Definition With (cx : lockctx) (body : prog) : prog := Locked (lc_target cx) body.    (* with cx: body *)
+Definition enter_once (cx : lockctx) (e : bool * prog) : prog :=
+  if fst e then Try (With cx (snd e)) else With cx (snd e).
+Fixpoint reuse_entries (cx : lockctx) (es : list (bool * prog)) : prog :=
+  match es with
+  | [] => Ret
+  | e :: rest => Seq (enter_once cx e) (reuse_entries cx rest)
+  end.
+Definition Reuse (t : bytes) (es : list (bool * prog)) : prog := reuse_entries (locked t) es.
